@@ -388,6 +388,15 @@ def run_check(mod, prop, seed, args, t0):
                                 "hashseed_dependence", "outcome digest differs under PYTHONHASHSEED=%s" % hs,
                                 {"hashseed": hs})))
 
+    # ---- aggregate-level clauses (e.g. C08 liveness): replayable cases derived from the pooled statistics
+    if hasattr(mod, "post_cases"):
+        for pc in mod.post_cases(dict(agg.stats), seed, tier, agg.runs):
+            res = _finish(core.run_case_guarded(mod.execute, pc, timeout_s=mod.RUN_TIMEOUT_S))
+            for v in res.get("violations", ()):
+                v = dict(v)
+                v.setdefault("case", pc)
+                agg.violations.append((-1, v))
+
     # ---- violations
     n_new, n_known, unconfirmed, lines = report_violations(
         mod, prop, agg.violations, lambda ref: mod.gen_case(seed, ref, tier), known)
